@@ -1899,5 +1899,6 @@ func main() {
 		Run:             run,
 		HangIsViolation: false,
 		CaseTimeout:     240 * time.Second,
+		QuickDeadline:   15 * time.Minute, // the tier is sized for ~1 min on 16 idle cores; the cap only matters on an overloaded machine
 	})
 }
